@@ -3,29 +3,47 @@ import csv, itertools, json, math, os, subprocess, time
 from concurrent.futures import ThreadPoolExecutor
 import common, extract, mpirun
 
-LEAN_MODULE = ["ESRVerif.Props.C05"]
+LEAN_MODULE = ["ESRVerif.Props.C05", "ESRVerif.Props.C05b"]
 LEVEL = "proof"
 LEVEL_TEXT = ("Lean theorems over a statement-by-statement model of one row of match.main and of the list-level part of "
               "simplifier.convert_params: order of composition of the recorded substitutions, triangular flatten/unflatten of the Hessian, "
               "the guard on the loaded chain (regenerated from the source), never-finite for unrecoverable chains, reported parameters / "
               "likelihood / code length for recoverable chains, the tensor law of the quadratic form (Mathlib matrices) and its closed form for "
-              "monomial maps.  Proof level for this decision logic; the calculus (sympy subs/jacobian, np.linalg.inv) is an input of the model "
-              "and is checked on every run against an independent chain-rule oracle on synthetic libraries run through the real match.main.")
+              "monomial maps.  Props/C05b proves the calculus behind 'the Fisher matrix transformed by the Jacobian of the map' over the reals "
+              "(Mathlib Frechet derivative, inverse function theorem): for g twice continuously differentiable at theta^ with invertible Jacobian J, "
+              "L twice continuously differentiable and stationary at theta^, and ANY L' with L'(g theta) = L theta near theta^, "
+              "Hess L'(g theta^) = J^-T Hess L(theta^) J^-1 (ESR.C05.fisher_matrix_of_variant; basis-free hessian_variant, second-order chain rule "
+              "hessian_comp_general / hessian_comp_at_stationary, stationarity_needed, fderiv_local_inverse), its diagonal "
+              "H_{s(i) s(i)} / g_i'(theta_{s(i)})^2 for the one-parameter-to-one-parameter templates (fisher_diag_monomial) and F' = F / g'(theta^)^2 for "
+              "sign flip, reciprocal, rescaling, real power, exp, log|.| with explicit derivatives (fisher_one_param, fisher_sign_flip, ...).  "
+              "Proof level for this decision logic and this calculus; sympy subs/jacobian/lambdify and np.linalg.inv are inputs of the model "
+              "and are checked on every run against an independent chain-rule oracle on synthetic libraries run through the real match.main; "
+              "the oracle's J^-T F J^-1 is itself sampled against fisher_matrix_of_variant by finite differences of the variant's likelihood.")
 TECHNIQUE = ("Lean 4 proof on a hand model of match.main's row logic + regenerated guard/constants + model-code correspondence on synthetic "
-             "libraries (real match.main, 1-3 ranks) + independent numpy chain-rule oracle")
+             "libraries (real match.main, 1-3 ranks) + independent numpy chain-rule oracle, "
+             "whose transformed Fisher matrix is sampled against theorem ESR.C05.fisher_matrix_of_variant by central finite differences")
 RULE = ("one evaluation = one row of a synthetic library pushed through the real match.main; distinct = (number of parameters, chain of "
         "templates, sign/threshold class of theta); non-trivial = non-empty chain or a snapped parameter")
 EXPLANATION = LEVEL_TEXT
 TRUSTED = ["hand model ESRVerif/Model/Match.lean of match.py:64-229 and of the list-level part of simplifier.convert_params (tied by correspondence on every row)",
            "harness/extractors/match.py (guard AST, constants)",
-           "sympy subs/jacobian/lambdify and np.linalg.inv inside simplifier.convert_params: inputs of the model, compared with the independent chain-rule oracle",
+           "sympy subs/jacobian/lambdify and np.linalg.inv inside simplifier.convert_params: inputs of the model, compared with the independent chain-rule oracle "
+           "(closed-form derivative per template, composed by the chain rule); that the oracle's F' = J^-T F J^-1 is the Hessian of the variant's negative "
+           "log-likelihood is theorem ESR.C05.fisher_matrix_of_variant (diagonal: fisher_diag_monomial), no longer an assumption; the oracle samples it: central "
+           "finite differences of the variant's Gauss likelihood at p^ = g(theta^) vs J^-T H J^-1 at the exact least-squares theta^ (tie:hessian-transform)",
+           "a central finite-difference Hessian (steps 1e-4 |p_i| and half of it, one Richardson step, compared to 2e-5 of the matrix norm) is the Hessian; the per-template derivative "
+           "formulas of the oracle (Tpl.d) are the derivatives (each is also proved for its one-parameter form: fisher_sign_flip / _reciprocal / _rescale / _power)",
            "'%.7e' text round-off between stages (outputs compared to 2e-7 relative, decisions exactly)"]
 ASSUMPTIONS = ["try_integration=False (the default) in match.main",
                "max_param = 4 file layout (test_all.main: max(4, (comp-1)//2))",
                "a chain with the nan marker belongs to a variant with at least one parameter (generation records nan only when two parameters merge)",
                "'regular there' = every template of the chain is real-differentiable with non-zero derivative at the point it is applied to and the "
                "composed Jacobian is invertible; the real-power odd-root template a**(1/n) at a<0 (NaN under numpy) is therefore an excluded point (design F6)",
-               "the Fisher matrix in derivs_comp<n>.dat is positive definite when the finiteness clause is demanded (a Hessian at a maximum-likelihood point)"]
+               "the Fisher matrix in derivs_comp<n>.dat is positive definite when the finiteness clause is demanded (a Hessian at a maximum-likelihood point)",
+               "hypotheses of ESR.C05.fisher_matrix_of_variant, under which 'the Fisher matrix transformed by the Jacobian of the map' is the variant's Fisher matrix: "
+               "the negative log-likelihood L is twice continuously differentiable and stationary at theta^ (a maximum-likelihood point in the interior; "
+               "stationarity is needed: ESR.C05.stationarity_needed), the map g is twice continuously differentiable at theta^ with invertible Jacobian, and the "
+               "variant evaluated at g(theta) is the unique function evaluated at theta for theta near theta^"]
 # tables whose committed version may stand in as a hand-written model when the translator cannot read the source;
 # value = the correspondence that then ties it to the code (common.prove / common.decide)
 FALLBACK = {'Match': 'real match.main on synthetic libraries (all chains) vs the Lean matchRow model, bit-exact decisions'}
@@ -706,6 +724,96 @@ def template_format_tie(ctx):
     return len(want), bad
 
 
+def _fd_hessian_h(f, p, rel):
+    """central second differences (4-point formula for every entry), step rel*|p_i|"""
+    import numpy as np
+    p = np.array(p, dtype=float)
+    n = len(p)
+    h = rel * np.where(np.abs(p) > 1e-12, np.abs(p), 1.0)
+    H = np.zeros((n, n))
+    for i in range(n):
+        for j in range(i, n):
+            ei = np.zeros(n); ei[i] = h[i]
+            ej = np.zeros(n); ej[j] = h[j]
+            H[i, j] = H[j, i] = (f(p + ei + ej) - f(p + ei - ej) - f(p - ei + ej) + f(p - ei - ej)) / (4 * h[i] * h[j])
+    return H
+
+
+def _fd_hessian(f, p, rel=1e-4):
+    """one Richardson step on the central second differences (removes the h^2 term of the truncation error)"""
+    return (4.0 * _fd_hessian_h(f, p, rel / 2) - _fd_hessian_h(f, p, rel)) / 3.0
+
+
+def hessian_theorem_tie(ctx, deep):
+    """The oracle's `expected_fisher` (J^-T F J^-1) sampled against theorem ESR.C05.fisher_matrix_of_variant: at the exact
+    least-squares point theta^ of the unique function (so L is stationary there: the theorem's hypothesis), for every single template
+    and every ordered pair (triples when deep), the central finite-difference Hessian of the VARIANT's Gauss likelihood at
+    p^ = chain(theta^) equals J^-T H J^-1 with J from the oracle's chain rule.  The theorem's hypothesis L'(g theta) = L theta is sampled at
+    theta^ and nearby; chains for which it does not hold (an inverse template that is not a two-sided inverse on that sign, e.g.
+    sqrt(Abs(a)) at a < 0) are counted and skipped.  Control: off the minimum the identity must FAIL for a reciprocal
+    (ESR.C05.stationarity_needed).  Pure numpy/sympy printing; does not touch match.py."""
+    import numpy as np
+    out = dict(theorem="ESR.C05.fisher_matrix_of_variant", diagonal="ESR.C05.fisher_diag_monomial", cases=0, skipped_not_regular=0,
+               skipped_not_reparametrisation=0, max_rel_err=0.0, by_k={})
+    data = dataset("main")
+    x, y, sig = data
+    worst = None
+    for k in (1, 2, 3):
+        T = templates(k)
+        names = [n for n in ALPHA[k] if n != "nan"]
+        chains = [(a,) for a in names] + [(a, b) for a in names for b in names]
+        if deep:
+            chains += [(a, b, c) for a in names for b in names for c in names][:: 3]
+        P = np.array(_phi(k, x))
+        th = np.linalg.solve((P / sig ** 2) @ P.T, (P / sig ** 2) @ y)          # exact minimiser of the Gauss likelihood of UNIQUE[k]
+        H = hessian(k, x, sig)
+        L = lambda a: gauss_nll(UNIQUE[k], data, a)
+        n_k = 0
+        for chain in chains:
+            p, J, reg = chain_eval(T, list(chain), th)
+            if not reg:
+                out["skipped_not_regular"] += 1
+                continue
+            vs = variant_string(k, T, list(chain))
+            Lp = lambda b: gauss_nll(vs, data, b)
+            # hypothesis of the theorem, sampled: L'(g theta) = L theta at theta^ and at two nearby points
+            ok = True
+            for dth in (0.0, 1e-3, -2e-3):
+                t2 = th * (1 + dth)
+                p2, _, r2 = chain_eval(T, list(chain), t2)
+                if not (r2 and _close(Lp(p2), L(t2), rel=1e-9, ab=1e-9)):
+                    ok = False
+            if not ok:
+                out["skipped_not_reparametrisation"] += 1
+                continue
+            want = expected_fisher(J, H)
+            got = _fd_hessian(Lp, p)
+            err = float(np.max(np.abs(got - want)) / np.max(np.abs(want)))
+            out["cases"] += 1; n_k += 1
+            if err > out["max_rel_err"]:
+                out["max_rel_err"] = err; worst = (k, chain)
+            if not err <= 2e-5:
+                ctx.disagree("tie:hessian-transform", "k=%d chain %s at the least-squares point theta^=%s: finite-difference Hessian of the variant %r at p^=%s is %s, "
+                             "J^-T H J^-1 is %s (rel. %.3g) - the oracle's transformed Fisher matrix is not what ESR.C05.fisher_matrix_of_variant speaks about"
+                             % (k, list(chain), th.tolist(), vs, p.tolist(), got.tolist(), want.tolist(), err))
+        out["by_k"][str(k)] = n_k
+    out["worst"] = str(worst)
+    # control: off the minimum the second term DL(theta) D^2h(p) does not vanish
+    T = templates(1)
+    th = np.array([2.0])
+    p, J, reg = chain_eval(T, ["inv0"], th)
+    vs = variant_string(1, T, ["inv0"])
+    got = _fd_hessian(lambda b: gauss_nll(vs, data, b), p)
+    want = expected_fisher(J, hessian(1, x, sig))
+    ctrl = float(abs(got[0, 0] - want[0, 0]) / abs(want[0, 0]))
+    out["control_nonstationary_rel_diff"] = ctrl
+    if not ctrl > 1e-3:
+        ctx.disagree("tie:hessian-transform", "control: away from the minimum the finite-difference Hessian of %r equals J^-T H J^-1 (rel. %.3g): the sampling is insensitive" % (vs, ctrl))
+    if out["cases"] < 20:
+        ctx.disagree("tie:hessian-transform", "only %d sampled cases" % out["cases"])
+    return out
+
+
 def guard_is_nan_test(ctx):
     """does the regenerated guard (evaluated by the model) fire exactly on chains holding the nan marker?  Used to attribute a
     failing input to the guard; the proof obligation itself is theorem ESR.C05.guard_is_nan_test."""
@@ -772,6 +880,7 @@ def run(ctx):
     nops, nbad, branches = correspond(ctx, results)
     nf, bf = flatten_tie(ctx)
     nt, bt = template_format_tie(ctx)
+    ctx.extra["theorem_samples"] = hessian_theorem_tie(ctx, deep)
     gok, gdetail = guard_is_nan_test(ctx)
     if not gok:
         ctx.disagree("model:guard-is-nan-test", gdetail)
@@ -783,7 +892,7 @@ def run(ctx):
         ctx.fail(F1_KEY, "%d rows with a recoverable, regular, non-empty chain and a finite unique function get code length inf and zero parameters; smallest: "
                  "variant %r of %r, chain [%s], theta=%s -> row %s (identity-chain rows are finite). %s"
                  % (len(f1_rows), r["variant"], r["unique"], "; ".join(templates(r["k"])[c].s for c in r["chain"]), r["theta"], out, msg), _replay_of(r, dn))
-    obligations = ["corr:matchRow", "corr:unflatten", "corr:compose-order", "corr:nan-identity", "corr:flatten", "corr:template-format", "model:guard-is-nan-test"]
+    obligations = ["corr:matchRow", "corr:unflatten", "corr:compose-order", "corr:nan-identity", "corr:flatten", "corr:template-format", "model:guard-is-nan-test", "tie:hessian-transform"]
     dis = set(d["name"] for d in ctx.disagreements)
     ctx.extra["corr_obligations"] = len(obligations)
     ctx.extra["corr_discharged"] = sum(1 for o in obligations if o not in dis)
